@@ -234,6 +234,9 @@ func runC09(tier string, seed uint64, o *Out) error {
 	if err := fnKeyFamily(tier, seed, o); err != nil { // c09fn.go: function-valued grouping keys
 		return err
 	}
+	if err := panicFamily(tier, seed, o); err != nil { // c09panic.go: a batch that fails half-way (user function panics)
+		return err
+	}
 	return blockFamily(tier, seed, o) // c09block.go: the "block" overflow strategy in real time
 }
 
